@@ -186,6 +186,25 @@ namespace {
                .set("dec", a.spec ? al.sdec(a.s) : al.qdec(a.q)).set("eqcoord", eq);
             std::cout << vj::dump(ev) << "\n";
          }
+         // every offered name asked in one family right after the other family (and with a refused request in between): a
+         // name of one basis must be refused by the other whatever was asked before
+         {
+            auto ask = [&](bool spec, const std::string& n) {
+               auto ev = Value::object();
+               ev.set("e", "coord").set("fam", spec ? "spec" : "qual").set("dst", 1).set("n", n);
+               try {
+                  if (spec) sreg[1] = al.scoord(n); else qreg[1] = al.qcoord(n);
+                  ev.set("out", "ok").set("dec", spec ? al.sdec(sreg[1]) : al.qdec(qreg[1]));
+               }
+               catch (const Refused&) { ev.set("out", "refused").set("dec", Value::array()); }
+               std::cout << vj::dump(ev) << "\n";
+            };
+            for (auto& w : offered)
+               for (bool first : { true, false }) {
+                  ask(first, w); ask(not first, w);
+                  ask(first, w); ask(first, "no such name"); ask(not first, w); ask(not first, w); ask(first, w);
+               }
+         }
          for (int k = 0; k < len; ++k) {
             bool spec = below(100) < 70;
             const char* fam = spec ? "spec" : "qual";
